@@ -41,6 +41,11 @@ func drawSubs(t *rapid.T, cfg rlib.Config) []rlib.SubSpec {
 				}
 			}
 		}
+		if !cfg.IsValue && rapid.IntRange(0, 4).Draw(t, "filtered") == 0 {
+			s.IncludeName = rapid.SampledFrom([]string{"id<b", "counter-odd", "has-derived"}).Draw(t, "include")
+			s.Include = rlib.IncludeFn(s.IncludeName)
+			lib.Ev.Class("history:a filtered view among the subscribers")
+		}
 		subs = append(subs, s)
 	}
 	return subs
